@@ -6,7 +6,16 @@
 
 package tree
 
-import "sync"
+import (
+	"encoding/json"
+	"fmt"
+	"os"
+	"sort"
+	"sync"
+
+	"github.com/issue9/mux/v9/internal/syntax"
+	"github.com/issue9/mux/v9/types"
+)
 
 // VerifHook 仅用于验证：在每一次访问路由树之前报告访问位置、读写类型以及该树的锁。
 var VerifHook func(locker *sync.RWMutex, site string, write bool)
@@ -15,4 +24,96 @@ func (tree *Tree[T]) vhook(site string, write bool) {
 	if VerifHook != nil {
 		VerifHook(tree.locker, site, write)
 	}
+}
+
+// ---- 仅用于验证：将 Add/Remove/Clean/Handler 的调用记录到 VERIF_TRACE 指定的文件（NDJSON），
+// 这样任何执行（比如项目本身的测试）都可以作为规范的检验对象。
+
+var (
+	vtraceMu   sync.Mutex
+	vtraceFile *os.File
+	vtraceOnce sync.Once
+	vtracePath = map[*types.Context]string{}
+)
+
+func vtraceEmit(m map[string]any) {
+	vtraceOnce.Do(func() {
+		if p := os.Getenv("VERIF_TRACE"); p != "" {
+			vtraceFile, _ = os.OpenFile(p, os.O_APPEND|os.O_CREATE|os.O_WRONLY, 0o644)
+		}
+	})
+	if vtraceFile == nil {
+		return
+	}
+	b, err := json.Marshal(m)
+	if err != nil {
+		return
+	}
+	vtraceMu.Lock()
+	vtraceFile.Write(append(b, '\n'))
+	vtraceMu.Unlock()
+}
+
+func classify(f syntax.InterceptorFunc) (c string) {
+	defer func() {
+		if recover() != nil {
+			c = "unknown"
+		}
+	}()
+	switch {
+	case f(""):
+		return "unknown"
+	case f("-"):
+		return "any"
+	case f("a") && f("5") && f("Z"):
+		return "word"
+	case f("5") && !f("a"):
+		return "digit"
+	}
+	return "unknown"
+}
+
+func (tree *Tree[T]) vbase(ev string) map[string]any {
+	icpt := map[string]string{}
+	for rule, f := range tree.interceptors.VerifRules() {
+		icpt[rule] = classify(f)
+	}
+	return map[string]any{"ev": ev, "tree": fmt.Sprintf("%d:%p", os.Getpid(), tree), "name": tree.name, "trace": tree.hasTrace, "icpt": icpt}
+}
+
+func (tree *Tree[T]) vtraceAdd(pattern string, methods []string) {
+	m := tree.vbase("add")
+	m["pat"], m["methods"] = pattern, append([]string{}, methods...)
+	vtraceEmit(m)
+}
+
+func (tree *Tree[T]) vtraceOp(ev, pattern string, methods []string) {
+	m := tree.vbase(ev)
+	m["pat"], m["methods"] = pattern, append([]string{}, methods...)
+	vtraceEmit(m)
+}
+
+func (tree *Tree[T]) vtraceEnter(ctx *types.Context) {
+	vtraceMu.Lock()
+	vtracePath[ctx] = ctx.Path
+	vtraceMu.Unlock()
+}
+
+func (tree *Tree[T]) vtraceServe(ctx *types.Context, method string, n types.Node, ok bool) {
+	vtraceMu.Lock()
+	path := vtracePath[ctx]
+	delete(vtracePath, ctx)
+	vtraceMu.Unlock()
+	m := tree.vbase("serve")
+	ps := map[string]string{}
+	ctx.Range(func(k, v string) { ps[k] = v })
+	m["method"], m["path"], m["ok"], m["params"] = method, path, ok, ps
+	m["hasNode"] = n != nil
+	m["pat"], m["allow"] = "", []string{}
+	if n != nil {
+		ms := append([]string{}, n.Methods()...)
+		sort.Strings(ms)
+		m["pat"], m["allow"] = n.Pattern(), ms
+	}
+	vtraceEmit(m)
 }
